@@ -230,9 +230,9 @@ def main():
 
     drifted = [] if os.environ.get("VERIF_NO_ESCALATE") else FP.drift(REPO, pid)
     report["source_drift"] = drifted
-    eff_tier = "thorough" if drifted else tier
+    eff_tier = tier if (tier == "thorough" or not drifted) else "escalated"
     if drifted:
-        log("[%s] source differs from the modelled baseline in %d place(s): %s -> correspondence and search run with thorough budgets" % (pid, len(drifted), ", ".join(drifted[:6])))
+        log("[%s] source differs from the modelled baseline in %d place(s): %s -> correspondence and search run with escalated (6x quick) budgets" % (pid, len(drifted), ", ".join(drifted[:6])))
     try:
         with Lock():
             gen = regenerate()
